@@ -319,6 +319,18 @@ def gen_one(r, i, tier):
         ops.append(("view", 0, lo, hi, []))
         meta["views"].append(len(ops) - 1)
     pool = 1
+    if r.random() < 0.35:
+        # a second histogram with data beyond the range seen so far is merged IN PLACE after the views
+        # have been asked once: every later view must describe the merged content (no stale extent)
+        ops.append(("new", spec))
+        for _ in range(r.randint(1, 4)):
+            x2 = r.choice(crit) + r.choice([-1.0, 1.0]) * (abs(hi_dom - lo_dom) + 1.0) * r.choice([1.0, 2.0])
+            ops.append(("fill", 1, [float(x2), 0.25, 0.0, "a", False], 1.0))
+        ops.append(("iadd", 0, 1))
+        ops.append(("view", 0, None, None, xs))
+        meta["views"].append(len(ops) - 1)
+        meta["merged"] = len(ops) - 1
+        pool = 2
     for x in xs[:4]:
         ops.append(("copy", 0))
         ops.append(("fill", pool, [x, 0.25, 0.0, "a", False], 1.0))
@@ -363,6 +375,11 @@ def oracle(p, run, exact):
     fails = []
     logs = getattr(m, "viewlog", [])
     full = logs[0]
+    # with an in-place merge after the first views: the sub-range views belong to the state before it,
+    # the last full view (and the probes) to the merged state
+    merged = meta.get("merged") is not None
+    final_full = logs[-1] if merged else logs[0]
+    subviews = logs[1:-1] if merged else logs[1:]
 
     def bad(clause, rec, diff):
         fails.append({"clause": clause, "low": rec["lo"], "high": rec["hi"], "diff": diff})
@@ -399,11 +416,11 @@ def oracle(p, run, exact):
             want = []
     else:
         want = [e for _, e in actual]
-    if [float(x) for x in full["bin_entries"]] != [float(x) for x in want]:
-        bad("bin_entries() is the content of the bins", full, "views %r, bins %r" % (full["bin_entries"][:8], want[:8]))
+    if [float(x) for x in final_full["bin_entries"]] != [float(x) for x in want]:
+        bad("bin_entries() is the content of the bins", final_full, "views %r, bins %r" % (final_full["bin_entries"][:8], want[:8]))
     # sub-ranges are slices of the full range that cover [low, high]
     fe, fn = full["bin_edges"], full["bin_entries"]
-    for rec in logs[1:]:
+    for rec in subviews:
         ed, en = rec["bin_edges"], rec["bin_entries"]
         if kind == "SparselyBin" and not fe:
             continue
@@ -424,8 +441,8 @@ def oracle(p, run, exact):
                     "edges %r entries %r; full edges %r entries %r" % (ed[:5], en[:5], fe[:6], fn[:6]))
                 continue
         lo, hi = rec["lo"], rec["hi"]
-        if kind == "SparselyBin" and not bins_of(h):
-            continue
+        if kind == "SparselyBin" and (not bins_of(h) or (merged and not logs[0]["bin_entries"])):
+            continue            # (the views of an empty sparse histogram are a placeholder)
         if lo is not None and ed[0] > lo and not close(ed[0], lo) and not (kind == "Bin" and lo < spec["low"]):
             bad("the sub-range view starts at or below low  [C13_cover]", rec, "first edge %r" % ed[0])
         if hi is not None and ed[-1] < hi and not close(ed[-1], hi) and not (kind == "Bin" and hi >= spec["high"]):
@@ -442,6 +459,8 @@ def oracle(p, run, exact):
         if hi is not None and len(ed) > 1 and ed[-2] >= hi and not close(ed[-2], hi) and not math.isinf(ed[-2]) \
                 and not (kind == "Bin" and hi < spec["low"]):
             bad("the last bin of a sub-range view starts below high  [C13_tight]", rec, "last-but-one edge %r >= high" % ed[-2])
+    full = final_full
+    fe, fn = full["bin_edges"], full["bin_entries"]
     # mpv: the centre of the first bin with the largest content
     want_mpv = expected_mpv(h, kind, spec)
     if want_mpv is not None and not any(e != e for _, e in bins_of(h)):
